@@ -18,6 +18,7 @@ mod suite_fmap;
 mod suite_fclone;
 mod suite_forest;
 mod suite_rt;
+mod suite_repair;
 mod idmap_hist;
 mod idmap_oracle;
 mod suite_idmap;
@@ -51,6 +52,7 @@ fn main() {
         "cmp" => suite_cmp::run(seed, count, tier, &mut sink),
         "forest" => suite_forest::run(seed, count, tier, &mut sink),
         "rt" => suite_rt::run(seed, count, tier, &mut sink),
+        "repair" => suite_repair::run(seed, count, tier, &mut sink),
         "exec-forest" => suite_forest::exec_stdin(&mut sink),
         "idmap" => suite_idmap::run(seed, count, tier, &mut sink),
         "axes" => suite_axes::run(seed, count, tier, &mut sink),
